@@ -25,8 +25,10 @@ package nsqd
 // Pure helpers.
 //@ benign (github.com/nsqio/nsq/nsqd.Options).HasExperiment, github.com/nsqio/nsq/internal/quantile.New
 
-// max-msg-size fits the disk queue's int32 size field together with the envelope (validated at start-up).
-//@ pred ctorOpts(n *NSQD) := n != nil && 0 <= curOpts(n).MaxMsgSize && curOpts(n).MaxMsgSize <= 2147483621 && curOpts(n).MemQueueSize >= 0
+// Configuration assumption (reported): max-msg-size fits the disk queue's int32 size field together with the
+// 26-byte envelope and mem-queue-size is not negative (the defaults are 1 MiB and 10000; nsqd does not validate them).
+//@ axiom configuredSizesSane: forall n *NSQD :: {curOpts(n)} 0 <= curOpts(n).MaxMsgSize && curOpts(n).MaxMsgSize <= 2147483621 && curOpts(n).MemQueueSize >= 0
+//@ pred ctorOpts(n *NSQD) := n != nil
 
 //@ func NewTopic(topicName string, nsqd *NSQD, deleteCallback func(*Topic)) *Topic
 //@   props C05 C07 C01 C12
@@ -46,3 +48,4 @@ package nsqd
 //@   ensures[running] result.exitFlag == 0 && result.paused == 0
 //@   ensures[disk-queue-accepts-every-message] dqCalls != old(dqCalls) ==> dqCalls == old(dqCalls) + 1 && dqMinMsg == 26 && dqMaxMsg == curOpts(nsqd).MaxMsgSize + 26
 //@   ensures[queues-distinct] queuesDistinct(result)
+//@   modifies dqCalls, mapstore(map[MessageID]*Message), mapstore(map[MessageID]*pqueue.Item), Message.index, elems(*Message), elems(*pqueue.Item)
